@@ -761,9 +761,39 @@ func (nz *normaliser) list(list []ast.Stmt) []ast.Stmt {
 			}
 		}
 		if rep := nz.stmt(st); rep != nil {
-			out = append(out, rep...)
+			out = append(out, spliceBlocks(rep)...)
 		} else {
 			out = append(out, st)
+		}
+	}
+	return out
+}
+
+// spliceBlocks: a block that declares nothing at its top level is only a pair of braces; its statements take its place
+// (the expanded body of a helper then sits exactly where the statements were before they were extracted).
+func spliceBlocks(rep []ast.Stmt) []ast.Stmt {
+	var out []ast.Stmt
+	for _, st := range rep {
+		b, ok := st.(*ast.BlockStmt)
+		if !ok {
+			out = append(out, st)
+			continue
+		}
+		declares := false
+		for _, s := range b.List {
+			switch x := s.(type) {
+			case *ast.DeclStmt, *ast.LabeledStmt:
+				declares = true
+			case *ast.AssignStmt:
+				if x.Tok == token.DEFINE {
+					declares = true
+				}
+			}
+		}
+		if declares {
+			out = append(out, st)
+		} else {
+			out = append(out, spliceBlocks(b.List)...)
 		}
 	}
 	return out
